@@ -80,45 +80,53 @@ def offset_of(dc: ast.DictComp) -> Optional[int]:
 # R16  individualisation-refinement search
 # --------------------------------------------------------------------------
 def ir_search_shape(fi: FuncInfo, partial_bound_ok: Optional[bool] = None):
-    """list of (obligation, ok, construct, what, node)"""
+    """list of (obligation, ok, construct, what, node); local variable names are discovered, never assumed"""
+    from ..pattern import pmatch, pfind
     fn = fi.node
     pm = parent_map(fn)
     defs = local_defs(fn)
     obs = []
+    me = fi.qual.split(".")[-1]
+    params = fi.params
+    part = params[2] if len(params) > 2 else "part"
+    prefix = params[3] if len(params) > 3 else "prefix"
+    best = params[4] if len(params) > 4 else "best"
+    ties = params[5] if len(params) > 5 else "perms"
     loops = [l for l in walk_local(fn) if isinstance(l, ast.For)]
     branch = None
     for l in loops:
-        if any(isinstance(c, ast.Call) and call_name(c) == "_search" for c in walk_local(l)):
+        if any(isinstance(c, ast.Call) and call_name(c) == me for c in walk_local(l)):
             branch = l
     if branch is None:
         obs.append(("branch", None, "for v in cell", "branching loop not found", fn))
         return obs
     it = origin(defs, branch.iter)
     base = it
-    if isinstance(base, ast.Call) and isinstance(base.func, ast.Name) and base.func.id in ("sorted", "list") and base.args:
-        base = origin(defs, base.args[0])
+    for _ in range(3):
         if isinstance(base, ast.Call) and isinstance(base.func, ast.Name) and base.func.id in ("sorted", "list") and base.args:
             base = origin(defs, base.args[0])
-    part = fi.params[2] if len(fi.params) > 2 else "part"
-    ok_cell = isinstance(base, ast.Subscript) and norm(base.value) == part and norm(base.slice) == "idx"
+    mcell = pmatch("$p[$i]", base, {"p": part})
+    ok_cell = mcell is not None
     obs.append(("branch", ok_cell, branch.iter, "the branching loop visits every member of the chosen cell", branch))
-    idx = origin(defs, ast.Name(id="idx", ctx=ast.Load()))
-    ok_idx = norm(idx).replace(" ", "") == f"next((ifori,cinenumerate({part})iflen(c)>1))"
-    obs.append(("target-cell", ok_idx, idx, "the target cell is the first non-singleton cell of the (canonically ordered) partition", branch))
+    ok_idx = False
+    if mcell:
+        idx = origin(defs, ast.Name(id=mcell["i"], ctx=ast.Load()))
+        ok_idx = pmatch("next(($k for $k, $c in enumerate($p) if len($c) > 1))", idx, {"p": part}) is not None
+        obs.append(("target-cell", ok_idx, idx, "the target cell is the first non-singleton cell of the (canonically ordered) partition", branch))
     for ex in [n for n in walk_local(branch) if isinstance(n, (ast.Break, ast.Continue, ast.Return))]:
         gs = guards_of(pm, ex, branch)
         txt = [norm(t) for t, s in gs]
         if isinstance(ex, ast.Return):
-            ok = norm(ex.value) == "True" and any("_search(" in t for t in txt)
+            ok = norm(ex.value) == "True" and any(f"{me}(" in t for t in txt)
             obs.append(("exit", ok, f"return {norm(ex.value)} under {[t[:40] for t in txt]}", "the only early exit of the branching loop propagates an explicit early stop", ex))
         elif isinstance(ex, ast.Continue):
-            recognised = len(gs) == 1 and gs[0][1] and norm(gs[0][0]).replace(" ", "") == "best['label']isnotNoneandpartial_label>best['label']"
+            recognised = len(gs) == 1 and gs[0][1] and pmatch("$b['label'] is not None and $pl > $b['label']", gs[0][0], {"b": best}) is not None
             ok = (True if (recognised and partial_bound_ok) else (None if (recognised and partial_bound_ok is None) else False))
             obs.append(("prune", ok, f"continue under {txt}", "a branch is pruned only by a bound that is a lower bound of every label in its subtree", ex))
         else:
             obs.append(("exit", False, f"break under {txt}", "the branching loop is never cut short", ex))
     # leaf handling
-    leaf_if = [n for n in fn.body if isinstance(n, ast.If) and "all(" in norm(n.test) and "len(c) == 1" in norm(n.test)]
+    leaf_if = [n for n in fn.body if isinstance(n, ast.If) and pmatch("all((len($c) == 1 for $c in $p))", n.test, {"p": part}) is not None]
     if not leaf_if:
         obs.append(("leaf", None, "if all(len(c) == 1 ...)", "leaf test not found", fn))
         return obs
@@ -126,20 +134,97 @@ def ir_search_shape(fi: FuncInfo, partial_bound_ok: Optional[bool] = None):
     ifs = [n for n in lf.body if isinstance(n, ast.If)]
     ok_leaf = False
     if ifs:
-        t = norm(ifs[0].test).replace(" ", "")
-        lab = None
-        for nm in ("lab", "label"):
-            if f"{nm}<best['label']" in t:
-                lab = nm
-        body_txt = " ; ".join(norm(s) for s in ifs[0].body)
-        orelse = ifs[0].orelse
-        eq_ok = bool(orelse) and isinstance(orelse[0], ast.If) and norm(orelse[0].test).replace(" ", "") == f"{lab}==best['label']" \
-            and any(isinstance(c, ast.Call) and call_name(c) == "append" for c in ast.walk(orelse[0]))
-        ok_leaf = lab is not None and "best['label']isNone" in t and ".clear()" in body_txt and ".append(perm)" in body_txt and eq_ok
+        m_ = pmatch("$b['label'] is None or $l < $b['label']", ifs[0].test, {"b": best})
+        if m_:
+            lab = m_["l"]
+            body_calls = [norm(c) for st in ifs[0].body for c in ast.walk(st) if isinstance(c, ast.Call)]
+            perm_names = {b_["x"] for st in ifs[0].body for n_, b_ in pfind("$t.append($x)", st, {"t": ties})}
+            cleared = any(c == f"{ties}.clear()" for c in body_calls)
+            orelse = ifs[0].orelse
+            eq_ok = bool(orelse) and isinstance(orelse[0], ast.If) and pmatch("$l == $b['label']", orelse[0].test, {"l": lab, "b": best}) is not None \
+                and any(pfind("$t.append($x)", st, {"t": ties}) for st in orelse[0].body)
+            ok_leaf = cleared and len(perm_names) == 1 and eq_ok
     obs.append(("leaf", ok_leaf, ifs[0].test if ifs else lf.test, "a strictly smaller label replaces the best and resets the tie list; an equal label is appended (all minimal leaves are kept)", lf))
     rets = [n for n in lf.body if isinstance(n, ast.Return)]
     obs.append(("leaf", bool(rets) and norm(rets[-1].value) == "False", rets[-1] if rets else "return", "a leaf never signals an early stop", lf))
     # refinement before the leaf test
     ref = [n for n in fn.body if isinstance(n, ast.Assign) and isinstance(n.value, ast.Call) and call_name(n.value) == "_refine"]
     obs.append(("refine", bool(ref) and fn.body.index(ref[0]) < fn.body.index(lf), ref[0] if ref else "_refine", "every node of the search tree is refined before it is examined", fn))
+    return obs
+
+
+# --------------------------------------------------------------------------
+# shape of a positional canonical-label builder (nauty._build_label, CRNCanonicalizer._label)
+# --------------------------------------------------------------------------
+def label_builder_shape(fi: FuncInfo, node_keys: str, edge_keys: str, directed: bool):
+    """[(tag, ok, construct, what, node)]; every local name is discovered structurally.
+    node_keys / edge_keys are the attribute names on self (e.g. 'node_attrs' / 'edge_attrs')."""
+    from ..pattern import pmatch, pfind
+    fn = fi.node
+    G, perm = fi.params[1], fi.params[2]
+    defs = local_defs(fn)
+    pm = parent_map(fn)
+    obs = []
+    # node segment
+    pat = f"'|'.join((':'.join((str(self._freeze({G}.nodes[$v].get($a, ''))) for $a in self.{node_keys})) for $v in {perm}))"
+    segs = [(n, b) for n, b in pfind("$ns = $$e", fn, into_nested=False) if isinstance(n, ast.Assign) and pmatch(pat, n.value) is not None]
+    obs.append(("node-seg", len(segs) == 1, segs[0][0] if segs else f"'|'.join(... for v in {perm})", "the label lists the selected node attributes of every position, in position order", fn))
+    ns = segs[0][1]["ns"] if segs else None
+    # pair loops
+    loops = [l for l in walk_local(fn) if isinstance(l, ast.For) and isinstance(l.iter, ast.Call) and call_name(l.iter) == "range"]
+    outer = [l for l in loops if not enclosing_loops(pm, l, fn)]
+    ok_pairs = False
+    bits_name = None
+    if len(outer) == 1:
+        o = outer[0]
+        i = norm(o.target)
+        inner = [l for l in loops if enclosing_loops(pm, l, fn)[:1] == [o]]
+        nm = pmatch("range($n)", o.iter)
+        if len(inner) == 1 and nm:
+            j = norm(inner[0].target)
+            n_ = nm["n"]
+            n_src = norm(origin(defs, ast.Name(id=n_, ctx=ast.Load())))
+            if directed:
+                skip = [s_ for s_ in inner[0].body if isinstance(s_, ast.If) and any(isinstance(x, ast.Continue) for x in s_.body)]
+                ok_pairs = pmatch("range($n)", inner[0].iter, {"n": n_}) is not None and len(skip) == 1 and \
+                    (pmatch("$i == $j", skip[0].test, {"i": i, "j": j}) is not None or pmatch("$j == $i", skip[0].test, {"i": i, "j": j}) is not None)
+            else:
+                ok_pairs = pmatch("range($i + 1, $n)", inner[0].iter, {"i": i, "n": n_}) is not None
+            ok_pairs = ok_pairs and n_src == f"len({perm})"
+            other_exits = [x for x in walk_local(o) if isinstance(x, (ast.Break, ast.Return))]
+            ok_pairs = ok_pairs and not other_exits
+            # vi = perm[i], vj = perm[j]
+            vi = [b["v"] for n2, b in pfind(f"$v = {perm}[$k]", o, {"k": i})]
+            vj = [b["v"] for n2, b in pfind(f"$v = {perm}[$k]", inner[0], {"k": j})]
+            if vi and vj:
+                ones = [(n2, b) for n2, b in pfind("$eb.append('1:' + ':'.join((str($x) for $x in $fr)))", inner[0])]
+                zeros = [(n2, b) for n2, b in pfind(f"$eb.append('0:' + ':'.join(('' for $u in self.{edge_keys})))", inner[0])]
+                ok_bits = False
+                if len(ones) == 1 and len(zeros) == 1 and ones[0][1]["eb"] == zeros[0][1]["eb"]:
+                    bits_name = ones[0][1]["eb"]
+                    fr = ones[0][1]["fr"]
+                    fr_src = [n2 for n2, b in pfind(f"$fr = tuple((self._freeze($at.get($a, '')) for $a in self.{edge_keys}))", inner[0], {"fr": fr})]
+                    at_ok = False
+                    if fr_src:
+                        at = pmatch(f"$fr = tuple((self._freeze($at.get($a, '')) for $a in self.{edge_keys}))", fr_src[0])["at"]
+                        at_ok = bool(pfind(f"$at = {G}[$vi][$vj]", inner[0], {"at": at, "vi": vi[0], "vj": vj[0]}))
+                    g1 = guards_of(pm, ones[0][0], inner[0])
+                    g0 = guards_of(pm, zeros[0][0], inner[0])
+                    has = lambda gs, sense: any(pmatch(f"{G}.has_edge($a, $b)", t, {"a": vi[0], "b": vj[0]}) is not None and s_ == sense for t, s_ in gs)
+                    ok_bits = bool(fr_src) and at_ok and has(g1, True) and has(g0, False)
+                obs.append(("edge-bit", ok_bits, ones[0][0] if ones else "edge_bits.append('1:' ...)",
+                            "a pair of positions gets '1:' + the selected attributes of exactly the edge between them, or '0:' if there is none", inner[0]))
+            else:
+                obs.append(("edge-bit", None, f"{perm}[i] / {perm}[j]", "position-to-node translation not recognised", o))
+    obs.append(("pairs", ok_pairs, [norm(l.iter) for l in loops],
+                ("every ordered pair of distinct positions contributes an arc bit" if directed else "every unordered pair of positions contributes an edge bit"), fn))
+    # return NS + '||' + '|'.join(bits)
+    rets = [n for n in walk_local(fn) if isinstance(n, ast.Return)]
+    ok_ret = False
+    if rets and ns and bits_name:
+        m = pmatch("$ns + '||' + $es", rets[-1].value, {"ns": ns})
+        if m:
+            es_src = origin(defs, ast.Name(id=m["es"], ctx=ast.Load()))
+            ok_ret = pmatch("'|'.join($eb)", es_src, {"eb": bits_name}) is not None
+    obs.append(("return", ok_ret, rets[-1] if rets else "return", "the label is the node segment followed by all pair bits (nothing dropped)", fn))
     return obs
